@@ -512,11 +512,12 @@ func (l *LangRefValue) UnmarshalJSON(data []byte) error {
 		o, _ := val.Object()
 		o.Visit(func(key []byte, v *fastjson.Value) {
 			l.Ref = LangRef(key)
-			l.Value = unescape(v.GetStringBytes())
+			// NOTE(marius): the parser has already decoded the JSON string, the text is taken as it is
+			l.Value = append(Content{}, v.GetStringBytes()...)
 		})
 	case fastjson.TypeString:
 		l.Ref = NilLangRef
-		l.Value = unescape(val.GetStringBytes())
+		l.Value = append(Content{}, val.GetStringBytes()...)
 	}
 
 	return nil
@@ -732,12 +733,13 @@ func (n *NaturalLanguageValues) UnmarshalJSON(data []byte) error {
 		ob, _ := val.Object()
 		ob.Visit(func(key []byte, v *fastjson.Value) {
 			if dat := v.GetStringBytes(); len(dat) > 0 {
-				n.Append(LangRef(key), unescape(dat))
+				// NOTE(marius): the parser has already decoded the JSON string, the text is taken as it is
+				n.Append(LangRef(key), append(Content{}, dat...))
 			}
 		})
 	case fastjson.TypeString:
 		if dat := val.GetStringBytes(); len(dat) > 0 {
-			n.Append(NilLangRef, unescape(dat))
+			n.Append(NilLangRef, append(Content{}, dat...))
 		}
 	case fastjson.TypeArray:
 		for _, v := range val.GetArray() {
